@@ -9,8 +9,10 @@ import traceback
 from typing import Any, Callable, Iterable, Optional
 
 
-class HarnessError(Exception):
-    """Raised for problems of the harness itself (never reported as a violation)."""
+class HarnessError(BaseException):
+    """Raised for problems of the harness itself (never reported as a violation).
+
+    Derives from BaseException so that Hypothesis aborts at once instead of shrinking it."""
 
 
 @dataclasses.dataclass
@@ -20,6 +22,7 @@ class Verdict:
     labels: tuple = ()
     detail: Any = None
     bucket: str = ""
+    count: int = 1  # number of elementary evaluations this case stands for (blocks of an enumeration)
 
     def to_json(self):
         return {
@@ -31,8 +34,8 @@ class Verdict:
         }
 
 
-def ok(nontrivial=True, labels=(), detail=None):
-    return Verdict(True, bool(nontrivial), tuple(labels), detail, "")
+def ok(nontrivial=True, labels=(), detail=None, count=1):
+    return Verdict(True, bool(nontrivial), tuple(labels), detail, "", int(count))
 
 
 def fail(bucket, detail=None, nontrivial=True, labels=()):
